@@ -144,7 +144,7 @@ class RelUnit:
         return csrc + '\n#define RLEN %d\n' % self.rlen + engine.PREAMBLE + '\n' + h + '\n'
 
     def key(self):
-        cst = engine.hash_files(engine.files_under(os.path.join(engine.VERIF, 'cstl')) + engine.files_under(os.path.join(engine.VERIF, 'contracts'), {'.h'}))
+        cst = engine.models_hash(engine.file_bytes(os.path.join(self.gen, self.info['cname'] + '.h')))
         return engine.sha(self.id, self.source(), cst, engine.file_bytes(os.path.join(self.gen, 'gen_common.h')), engine.file_bytes(os.path.join(self.gen, self.info['cname'] + '.h')), 'rel-v4')
 
 
